@@ -1097,4 +1097,39 @@ func init() {
 	addMutants("C15", m)
 	addMutants("C16", mutant{"renamed-field-root-token-compared-by-prefix", "internal/server/middleware.go", "§all§authToken", "rootToken", "WEB-auth", "bypass-tests"})
 	moreEdits["renamed-field-root-token-compared-by-prefix"] = []edit{{"internal/server/http_handlers.go", "§all§authToken", "rootToken"}, {"internal/server/server.go", "§all§authToken", "rootToken"}, {"internal/server/middleware.go", "token == s.rootToken", "token == s.rootToken || s.rootToken == \"dev\""}}
+	// ---- renames of unexported types (typeRenames in anchors.go): the tree is analysed under the recorded name
+	m = mutant{"benign:rename-type-opGate", "pkg/engine/opgate.go", "§all§opGate", "operationGate", "silent", ""}
+	addMutants("C01", m)
+	addMutants("C02", m)
+	addMutants("C14", m)
+	moreEdits["benign:rename-type-opGate"] = []edit{{"pkg/engine/engine.go", "§all§opGate", "operationGate"}}
+	m = mutant{"benign:rename-type-commandKind-and-commandResponse", "pkg/persistence/lazy_aof.go", "§all§commandKind", "cmdKind", "silent", ""}
+	addMutants("C02", m)
+	addMutants("C13", m)
+	addMutants("C14", m)
+	moreEdits["benign:rename-type-commandKind-and-commandResponse"] = []edit{{"pkg/persistence/lazy_aof.go", "§all§commandResponse", "cmdReply"}}
+	m = mutant{"benign:rename-type-journaledKV", "internal/server/server.go", "§all§journaledKV", "journalledStore", "silent", ""}
+	addMutants("C16", m)
+	addMutants("C05", m)
+	m = mutant{"benign:rename-type-hnswMaintenanceCoord-and-vecData", "pkg/core/hnsw/hnsw_index.go", "§all§hnswMaintenanceCoord", "maintCoord", "silent", ""}
+	addMutants("C13", m)
+	addMutants("C18", m)
+	moreEdits["benign:rename-type-hnswMaintenanceCoord-and-vecData"] = []edit{{"pkg/core/hnsw/hnsw_index.go", "§all§vecData", "vectorStore"}, {"pkg/core/hnsw/hnsw_node.go", "§all§vecData", "vectorStore"}}
+	addMutants("C14", mutant{"renamed-gate-woken-by-any-epoch", "pkg/engine/opgate.go", "§all§opGate", "operationGate", "ORD-9", "only-for-an-earlier-epoch"})
+	moreEdits["renamed-gate-woken-by-any-epoch"] = []edit{{"pkg/engine/engine.go", "§all§opGate", "operationGate"}, {"pkg/engine/opgate.go", "\tif g.active[ep&1] == 0 && ep != g.epoch && g.idle != nil {\n", "\tif g.active[ep&1] == 0 && g.idle != nil {\n"}}
+	// ---- round 11
+	m = mutant{"benign:vacuum-retention-test-extracted", "pkg/core/graph.go", "// VacuumGraph physically removes edges", "// retainedAt: the entry survives a vacuum with this cutoff.\nfunc retainedAt(deletedAt, cutoffTime int64) bool {\n\treturn deletedAt == 0 || deletedAt > cutoffTime\n}\n\n// VacuumGraph physically removes edges", "silent", ""}
+	addMutants("C10", m)
+	addMutants("C11", m)
+	moreEdits["benign:vacuum-retention-test-extracted"] = []edit{{"pkg/core/graph.go", "§1/2§\t\t\t\t\tif e.DeletedAt == 0 || e.DeletedAt > cutoffTime {\n", "\t\t\t\t\tif retainedAt(e.DeletedAt, cutoffTime) {\n"}, {"pkg/core/graph.go", "\t\t\t\t\tif e.DeletedAt == 0 || e.DeletedAt > cutoffTime {\n\t\t\t\t\t\tnewIn", "\t\t\t\t\tif retainedAt(e.DeletedAt, cutoffTime) {\n\t\t\t\t\t\tnewIn"}}
+	addMutants("C10",
+		mutant{"vacuum-skips-a-list-whose-head-is-retained", "pkg/core/graph.go", "\t\t\t\tnewOut := edges[:0] // In-place filtering pattern\n", "\t\t\t\tif len(edges) > 0 && (edges[0].DeletedAt == 0 || edges[0].DeletedAt > cutoffTime) {\n\t\t\t\t\tcontinue\n\t\t\t\t}\n\t\t\t\tnewOut := edges[:0] // In-place filtering pattern\n", "GRD-vacuum-all", "every-list-is-walked"},
+		mutant{"vacuum-skips-an-incoming-list-whose-tail-is-live", "pkg/core/graph.go", "\t\t\t\tnewIn := edges[:0]\n", "\t\t\t\tif n := len(edges); n > 0 && edges[n-1].DeletedAt == 0 {\n\t\t\t\t\tcontinue\n\t\t\t\t}\n\t\t\t\tnewIn := edges[:0]\n", "GRD-vacuum-all", "every-list-is-walked"},
+	)
+	addMutants("C12", mutant{"delete-cascade-outside-the-bracket-of-the-delete", "pkg/engine/ops.go", "func (e *Engine) VDelete(indexName, id string) error {\n\tdefer e.writeGate.leave(e.writeGate.enter())\n", "func (e *Engine) VDelete(indexName, id string) error {\n\tep := e.writeGate.enter()\n\tleft := false\n\tdefer func() {\n\t\tif !left {\n\t\t\te.writeGate.leave(ep)\n\t\t}\n\t}()\n", "ORD-9", "inside-the-gate-bracket-of-the-whole-delete"})
+	moreEdits["delete-cascade-outside-the-bracket-of-the-delete"] = []edit{{"pkg/engine/ops.go", "\tmetaLock.Unlock()\n\n\tatomic.AddInt64(&e.dirtyCounter, 1)\n\n\te.EventBus.Emit(Event{Type: EventVectorDelete,", "\tmetaLock.Unlock()\n\te.writeGate.leave(ep)\n\tleft = true\n\n\tatomic.AddInt64(&e.dirtyCounter, 1)\n\n\te.EventBus.Emit(Event{Type: EventVectorDelete,"}}
+	m = mutant{"benign:rename-type-twins-minHeap-and-maxHeap", "pkg/core/hnsw/hnsw_heap.go", "§all§minHeap", "candidateHeap", "silent", ""}
+	addMutants("C06", m)
+	addMutants("C07", m)
+	moreEdits["benign:rename-type-twins-minHeap-and-maxHeap"] = []edit{{"pkg/core/hnsw/hnsw_heap.go", "§all§maxHeap", "resultHeap"}, {"pkg/core/hnsw/hnsw_index.go", "§all§minHeap", "candidateHeap"}, {"pkg/core/hnsw/hnsw_index.go", "§all§maxHeap", "resultHeap"}}
 }
